@@ -129,6 +129,7 @@ class SSHChannel(Generic[AnyStr], SSHPacketHandler):
         self._send_paused = False
         self._send_buf: List[Tuple[bytearray, DataType]] = []
         self._send_buf_len = 0
+        self._send_discarded = False
         self._send_eof_pending = False
 
         self._recv_state = 'closed'
@@ -258,6 +259,9 @@ class SSHChannel(Generic[AnyStr], SSHPacketHandler):
         """Discard unsent data and close the channel for sending"""
 
         # Discard unsent data
+        if self._send_buf_len:
+            self._send_discarded = True
+
         self._send_buf = []
         self._send_buf_len = 0
 
@@ -931,6 +935,11 @@ class SSHChannel(Generic[AnyStr], SSHPacketHandler):
 
         # pylint: disable=no-self-use
         return True
+
+    def was_write_discarded(self) -> bool:
+        """Return whether unsent data was discarded when the channel closed"""
+
+        return self._send_discarded
 
     def get_write_buffer_size(self) -> int:
         """Return the current size of the channel's output buffer
